@@ -496,6 +496,28 @@ pub fn run(cfg: &Cfg) -> Stats {
                 }
             }
         }
+        // the same description several times in a row, spelled in different letter cases (a parser that remembers its
+        // last answer must still name the word as *this* caller wrote it), and keywords with one letter replaced by a
+        // character that some case mapping folds onto it (dotless i, long s, the st ligatures)
+        for w in &vocab {
+            if !mine() {
+                continue;
+            }
+            for s in [format!("red blue {w}"), format!("{w}x bold"), format!("bold {w} {w} {w}"), w.clone()] {
+                let mixed: String = s.chars().enumerate().map(|(i, c)| if i % 2 == 1 { c.to_ascii_uppercase() } else { c }).collect();
+                for variant in [s.clone(), s.to_uppercase(), s.clone(), mixed, s.to_lowercase()] {
+                    eval(&variant, &mut st, true);
+                }
+            }
+            for (from, to) in [("i", "\u{131}"), ("s", "\u{17f}"), ("st", "\u{fb06}"), ("st", "\u{fb05}"), ("I", "\u{130}"), ("S", "\u{1e9e}"), ("ss", "\u{df}")] {
+                if w.contains(from) {
+                    let x = w.replacen(from, to, 1);
+                    for s in [x.clone(), format!("red {x}"), format!("red blue {}", x.to_uppercase())] {
+                        eval(&s, &mut st, true);
+                    }
+                }
+            }
+        }
         // near-miss numbers
         for v in ["00", "007", "0255", "0256", "1000", "99999999999999999999", "+5", "+255", "-0", "-2", "--1", "1.0", "1e2", "0x10", "\u{ff11}", "١", "1 2 3", "#", "##000", "#0000000"] {
             if mine() {
